@@ -9,6 +9,7 @@ package main
 
 import (
 	"fmt"
+	"regexp"
 	"sort"
 	"strings"
 
@@ -27,7 +28,41 @@ func genAll(thorough bool) ([]Case, map[string]int) {
 	all = append(all, genForIn(thorough, ex)...)
 	all = append(all, genComprehension1(thorough, ex)...)
 	all = append(all, genComprehension2(thorough, ex)...)
+	all = append(all, asOverloadArgument(all)...)
 	return all, ex
+}
+
+var (
+	reListComp = regexp.MustCompile(`(?m)^r := (\[.* for .*\])$`)
+	reListType = regexp.MustCompile(`(?m)^var r (\[\].*)$`)
+)
+
+// asOverloadArgument derives, from every list-comprehension unit, a unit in which the comprehension is an
+// argument of an overloaded function whose SECOND candidate matches: the compiler compiles the arguments once
+// per candidate it tries, so the comprehension node is lowered twice. The function returns its argument; the
+// documented expansion (and therefore the reference text) is unchanged.
+func asOverloadArgument(cases []Case) []Case {
+	var out []Case
+	for _, k := range cases {
+		if k.Family != "comprehension" || !strings.Contains(k.Class, "list-comprehension") {
+			continue
+		}
+		mx, mt := reListComp.FindStringSubmatch(k.XGo), reListType.FindStringSubmatch(k.Go)
+		if mx == nil || mt == nil || k.Decls != "" {
+			continue
+		}
+		n := len(out)
+		t := mt[1]
+		goDecls := fmt.Sprintf("func pickS%d(v %s, k string) %s { return v }\n\nfunc pickI%d(v %s, k int) %s { return v }\n", n, t, t, n, t, t)
+		d := k
+		d.ID = k.ID + "/as-argument-of-second-overload-candidate"
+		d.Class = k.Class + "/overload-argument"
+		d.XGo = strings.Replace(k.XGo, mx[0], fmt.Sprintf("r := pick%d(%s, 0)", n, mx[1]), 1)
+		d.GoDecls = goDecls
+		d.Decls = goDecls + fmt.Sprintf("\nfunc pick%d = (\n\tpickS%d\n\tpickI%d\n)\n", n, n, n)
+		out = append(out, d)
+	}
+	return out
 }
 
 // units shown in the evidence file (besides the first unit of every other family)
